@@ -8,6 +8,7 @@ write masks, PID/CRC duplicate filter, ACK only through an enabled pipe 0 whose 
 payload kept until the next new packet, MAX_RT blocks the PTX until cleared, ...).
 """
 import heapq
+import os
 import itertools
 import random
 import sys
@@ -717,8 +718,9 @@ _REPO_MODS = ("circuitpython_nrf24l01.rf24", "circuitpython_nrf24l01.rf24_lite",
               "circuitpython_nrf24l01.network.mixins", "adafruit_bus_device.spi_device")
 
 
-def install(s, repo="/repo"):
+def install(s, repo=None):
     """import the repo modules from the working tree and rebind their `time` to the scheduler"""
+    repo = repo or os.environ.get("VERIF_REPO", "/repo")
     if repo not in sys.path:
         sys.path.insert(0, repo)
     import importlib
